@@ -95,6 +95,24 @@ def check_L1(chk, F, tag="container"):
                     chk.undecide(key, "unsupported: %s" % ex, loc)
     chk.count("Derivative operator impls", n_impls)
     # inherent methods
+    # the 1x1 specialisation: unwrap() of an absent part is zero, of a present part its single element
+    bs = F.find_method("Derivative", "unwrap", None)
+    if len(bs) == 1:
+        body = bs[0]
+        loc = body_loc(F, body)
+        chk.count("Derivative inherent methods")
+        for ps in (True, False):
+            key = "%s|unwrap|presence=%s" % (tag, "S" if ps else "N")
+            try:
+                it = Interp(F, DOMK)
+                arg = Rec("Derivative", {"0": Opt(True, Mat(Poly.var("s"), ("1", "1"))) if ps else Opt(False), "1": PHANTOM})
+                res = unref(it.call_body(body, [arg]))
+                want = Poly.var("s") if ps else Poly()
+                ok = isinstance(res, Sc) and equal(res.v, want)
+                chk.ob(key, ok, "unwrap() of a 1x1 part: its element when present, zero when absent", loc,
+                       found=repr(res)[:120], required=want.show() or "0")
+            except Unsupported as ex:
+                chk.undecide(key, "unsupported: %s" % ex, loc)
     for name in ("tr_mul", "unwrap_generic", "some", "none", "new", "map"):
         bs = F.find_method("Derivative", name, None)
         if len(bs) != 1:
